@@ -551,6 +551,30 @@ impl EmitScope {
         self.choice_label_targets.get(label).map(String::as_str)
     }
 
+    /// A bare label that is not visible from the current weave (it belongs to
+    /// another weave or stitch of the enclosing knot): it still names that
+    /// gather or choice, as long as it is unambiguous within the knot.
+    fn resolve_label_in_enclosing_flow(
+        &self,
+        label: &str,
+        context: &EmitContext,
+    ) -> Option<String> {
+        if context.global_variables.contains(label) || self.temp_param_names.contains(label) {
+            return None;
+        }
+        let prefix = format!("{}.", self.top_flow_name.as_deref()?);
+        let suffix = format!(".{label}");
+        let mut candidates = context
+            .qualified_choice_labels
+            .iter()
+            .filter(|(key, _)| key.starts_with(&prefix) && key.ends_with(&suffix));
+        let (_, path) = candidates.next()?;
+        if candidates.next().is_some() {
+            return None;
+        }
+        Some(path.clone())
+    }
+
     fn resolve_qualified_choice_label(
         &self,
         target: &str,
